@@ -51,7 +51,7 @@ def main():
             mod = importlib.import_module(modname)
             if hasattr(mod, "contracts"):
                 cs = [c for c in mod.contracts(repo) if a.pid in c.props]
-                failed = driver.discharge_contracts(rep, cs, timeout_ms, jobs=a.jobs)
+                failed = driver.discharge_contracts(rep, modname, len(cs), timeout_ms, jobs=a.jobs)
                 driver.triage(rep, failed, (lambda n, q, mod=mod: mod.replay(rep, n, q)) if hasattr(mod, "replay") else None, ledger, known)
             if hasattr(mod, "extra_checks"):
                 mod.extra_checks(rep, a.pid, ledger, known)
